@@ -407,7 +407,7 @@ fn expand(seeds: &[Seed], plan: &[Value], thorough: bool) -> Vec<Input> {
         let origs: Vec<u64> = s.fields.iter().map(|f| mutate::read_field(&s.bytes, f)).collect();
         let mut seen_set: HashSet<(usize, u64)> = HashSet::new();
         let mut seen_tag: HashSet<(usize, String)> = HashSet::new();
-        let mut seen_pair: HashSet<(usize, u64, u64)> = HashSet::new();
+        let mut seen_pair: HashSet<(usize, usize, u64, u64)> = HashSet::new();
         let mut cuts: BTreeMap<usize, (i64, String)> = BTreeMap::new(); // position -> (plan idx in `plan`, field)
         for (pi, p) in plan.iter().enumerate() {
             let arch = gs(p, "arch");
@@ -510,25 +510,42 @@ fn expand(seeds: &[Seed], plan: &[Value], thorough: bool) -> Vec<Input> {
                     }
                 }
                 "pair" => {
-                    // sibling fields = consecutive inventory entries whose names share the prefix up to the
-                    // last '.' ("hdr.vertices.count" / "hdr.vertices.offset", "mip[0].offset" / "mip[0].size")
+                    // two fields edited together. PTCH (a dozen size fields that must agree with each other): every
+                    // pair of fields, in both tiers. Other formats (thorough only): sibling fields = consecutive inventory
+                    // entries whose names share the prefix up to the last '.' ("hdr.vertices.count" / ".offset").
+                    let all_pairs = s.format == "ptch";
+                    if !all_pairs && !thorough {
+                        continue;
+                    }
                     let prefix = |n: &str| n.rsplit_once('.').map(|x| x.0.to_string()).unwrap_or_default();
-                    for fi in 0..s.fields.len().saturating_sub(1) {
-                        let (fa, fb) = (&s.fields[fi], &s.fields[fi + 1]);
-                        if fa.role == "tag" || fb.role == "tag" || fa.role == "term" || fb.role == "term" {
-                            continue;
+                    let usable = |f: &Field| f.role != "tag" && f.role != "term";
+                    let mut pairs: Vec<(usize, usize)> = Vec::new();
+                    if all_pairs {
+                        for i in 0..s.fields.len() {
+                            for j in 0..s.fields.len() {
+                                if i != j && usable(&s.fields[i]) && usable(&s.fields[j]) {
+                                    pairs.push((i, j));
+                                }
+                            }
                         }
-                        let pa = prefix(&fa.name);
-                        if pa.is_empty() || pa != prefix(&fb.name) {
-                            continue;
+                    } else {
+                        for fi in 0..s.fields.len().saturating_sub(1) {
+                            let pa = prefix(&s.fields[fi].name);
+                            if usable(&s.fields[fi]) && usable(&s.fields[fi + 1]) && !pa.is_empty() && pa == prefix(&s.fields[fi + 1].name) {
+                                pairs.push((fi, fi + 1));
+                            }
                         }
+                    }
+                    for (fi, fj) in pairs {
+                        let (fa, fb) = (&s.fields[fi], &s.fields[fj]);
                         // `role` carries the symbol for the first field, `val` the one for the second
-                        let (Some(va), Some(vb)) = (concretise(role, fa, origs[fi], len), concretise(val, fb, origs[fi + 1], len)) else { continue };
-                        if !seen_pair.insert((fi, va, vb)) {
+                        let (Some(va), Some(vb)) = (concretise(role, fa, origs[fi], len), concretise(val, fb, origs[fj], len)) else { continue };
+                        if !seen_pair.insert((fi, fj, va, vb)) {
                             continue;
                         }
-                        let what = format!("{}+{}", norm_field(&fa.name), norm_field(&fb.name).rsplit_once('.').map(|x| x.1.to_string()).unwrap_or_default());
-                        out.push(mk(json!({"k":"set2","f":fi,"val":va.to_string(),"g":fi + 1,"val2":vb.to_string()}), p, what, format!("{va:x}"), len));
+                        let second = if all_pairs { norm_field(&fb.name) } else { norm_field(&fb.name).rsplit_once('.').map(|x| x.1.to_string()).unwrap_or_default() };
+                        let what = format!("{}+{}", norm_field(&fa.name), second);
+                        out.push(mk(json!({"k":"set2","f":fi,"val":va.to_string(),"g":fj,"val2":vb.to_string()}), p, what, format!("{va:x}"), len));
                     }
                 }
                 "havoc" => {
@@ -853,14 +870,23 @@ fn parent() {
                 "alloc":kib(e.maxreq),"peak":kib(e.peak)}));
             let huge = e.maxreq > worker::alloc_limit(inp.len);
             if rank(&e.class) >= 2 || huge {
-                let k = format!("{} | {} | {} | {}/{} {}", e.entry, if huge && rank(&e.class) < 2 { "hugealloc" } else { &e.class }, e.key, s.format, inp.role, inp.field);
+                let outcome = if huge && rank(&e.class) < 2 { "hugealloc" } else { e.class.as_str() };
+                // class key of the check's sig(): field roles for single-field items, the archetype otherwise
+                let rolekey = if matches!(inp.arch.as_str(), "chunk" | "array" | "string") { inp.role.as_str() } else { inp.arch.as_str() };
+                let k = json!([e.entry, outcome, e.key, rolekey, s.format, inp.field]).to_string();
                 *summary.entry(k).or_default() += 1;
             }
         }
     }
     tr.flush();
     let sp = PathBuf::from(format!("{}.summary.json", a.trace.display()));
-    let sm: Vec<Value> = summary.iter().map(|(k, v)| json!({"sig":k,"n":v})).collect();
+    let sm: Vec<Value> = summary
+        .iter()
+        .map(|(k, v)| {
+            let a: Value = serde_json::from_str(k).unwrap();
+            json!({"entry":a[0],"outcome":a[1],"key":a[2],"role":a[3],"format":a[4],"field":a[5],"n":v})
+        })
+        .collect();
     std::fs::write(&sp, serde_json::to_string_pretty(&json!({"inputs":inputs.len(),"seeds":seeds.len(),"nonok":sm})).unwrap()).unwrap();
     eprintln!("c05: {} seeds, {} inputs, {} distinct non-ok signatures", seeds.len(), inputs.len(), summary.len());
 }
